@@ -301,6 +301,10 @@ def op_list(ft):
             for cd in ("", "D1"):
                 ops.append((c, "codec-encode", "codec-decode", "to", False, cd or "plain"))
                 ops.append((c, "codec-encode", "codec-decode", "from", False, cd or "plain"))
+            # codec objects of the formats that merge a user dialect into their own, all given the SAME user dialect
+            ops.append((c, "codec-encode", "codec-decode", "to", False, "D1:orjson"))
+            ops.append((c, "codec-encode", "codec-decode", "from", False, "D1:msgpack"))
+            ops.append((c, "codec-encode", "codec-decode", "to", False, "D1:msgpack"))
         if "orjson" in ft["mixin"] and ft.get("orjson_cfg", {}).get("Node" if c == "Child" else c):
             ops.append((c, "to_jsonb", "from_json", "to", False, "config-options-honoured"))
             if has_d:
@@ -324,6 +328,13 @@ def run_op(mod, vals, op):
     if to_m == "codec-encode":
         from mashumaro.codecs.basic import BasicDecoder, BasicEncoder
         cls = getattr(mod, c)
+        if ":" in extra:
+            if extra.endswith("orjson"):
+                from mashumaro.codecs.orjson import ORJSONDecoder as FD, ORJSONEncoder as FE
+            else:
+                from mashumaro.codecs.msgpack import MessagePackDecoder as FD, MessagePackEncoder as FE
+            doc = FE(cls, default_dialect=mod.D1).encode(v)
+            return doc if direction == "to" else norm(FD(cls, default_dialect=mod.D1).decode(doc))
         dd = {"default_dialect": mod.D1} if extra == "D1" else {}
         doc = BasicEncoder(cls, **dd).encode(v)
         if direction == "to":
@@ -404,10 +415,93 @@ def nofield_history_case(rng, tier, rec, st):
         twin.dispose()
 
 
+def threaded_discriminator_case(rng, tier, rec, st, seed):
+    """many PLAIN variants behind an Annotated discriminator; their base already has a compiled method (it is a member of another
+    class). Eight threads make the first dispatches at once, with yield injection: every result is the tagged class with its own
+    members read - whatever another thread is registering or compiling at that moment."""
+    fam = Family("c14d")
+    try:
+        nvar = rng.randint(8, 24)
+        tagger = rng.random() < 0.3
+        src = "@dataclass\nclass B:\n    x: int = 0\n"
+        for i in range(nvar):
+            src += f"@dataclass\nclass V{i}(B):\n" + ("" if tagger else f"    t = 't{i}'\n") + f"    y{i}: int = 0\n    when{i}: Optional[datetime.date] = None\n"
+        if tagger:
+            src += "def tag_of(cls):\n    return 't' + cls.__name__[1:]\n"
+        disc = "Discriminator(field='t', include_subtypes=True" + (", variant_tagger_fn=tag_of)" if tagger else ")")
+        src += ("@dataclass\nclass Other(DataClassDictMixin):\n    b: Optional[B] = None\n"
+                f"@dataclass\nclass Hold(DataClassDictMixin):\n    v: Annotated[B, {disc}]\n    vs: List[Annotated[B, {disc}]] = field(default_factory=list)\n")
+        fam.exec_src(src)
+        m = fam.module
+        if rng.random() < 0.8:
+            m.Other.from_dict({"b": {"x": 1}})         # B gets a compiled method of its own: every variant INHERITS it until it is compiled itself
+        T = 8
+        bar = threading.Barrier(T)
+        results, lock = [], threading.Lock()
+        _Y["seq"] = []
+        _Y["rng"] = random.Random(seed)
+        _Y["p"] = rng.choice([0.02, 0.05, 0.15])
+        _Y["budget"] = 6000
+        old_sw = sys.getswitchinterval()
+        sys.setswitchinterval(1e-6)
+
+        def worker(i):
+            r = random.Random(seed * 17 + i)
+            try:
+                bar.wait(timeout=30)
+            except Exception:
+                return
+            for _ in range(6):
+                k = r.randrange(nvar)
+                doc = {"v": {"t": f"t{k}", "x": 1, f"y{k}": 5, f"when{k}": "2020-01-02"}, "vs": [{"t": f"t{(k + 1) % nvar}", f"y{(k + 1) % nvar}": 7}]}
+                try:
+                    h = m.Hold.from_dict(doc)
+                    got = (type(h.v).__name__, getattr(h.v, f"y{k}", None), str(getattr(h.v, f"when{k}", None)), type(h.vs[0]).__name__, getattr(h.vs[0], f"y{(k + 1) % nvar}", None))
+                except Exception as e:
+                    got = ("EXC", f"{type(e).__name__}: {e}"[:160], repr(e.__context__)[:120])
+                with lock:
+                    results.append((i, k, got))
+        ts = [threading.Thread(target=worker, args=(i,), daemon=True) for i in range(T)]
+        mon = sys.monitoring
+        mon.set_events(YIELD_TOOL, mon.events.LINE)
+        mon.restart_events()
+        _Y["on"] = True
+        for t in ts:
+            t.start()
+        for t in ts:
+            t.join(timeout=60)
+        _Y["on"] = False
+        mon.set_events(YIELD_TOOL, 0)
+        sys.setswitchinterval(old_sw)
+        if any(t.is_alive() for t in ts):
+            rec.count("thread_watchdog_inconclusive")
+            return
+        seq = [k for k, _ in itertools.groupby(_Y["seq"])]
+        fp = hashlib.blake2b(repr(seq).encode(), digest_size=8).hexdigest()
+        st["schedules"].add(fp)
+        rec.count("thread_families")
+        rec.count("thread_handoffs", len(seq))
+        for i, k, got in results:
+            rec.evaluation()
+            exp = (f"V{k}", 5, "2020-01-02", f"V{(k + 1) % nvar}", 7)
+            if got == exp:
+                rec.count("op_agree")
+                rec.count("threaded_dispatch_agree")
+            else:
+                rec.violation(f"threads:discriminator:{'exception' if got[0] == 'EXC' else 'wrong-variant-or-members-not-read'}",
+                              {"variants": nvar, "tagger": tagger, "thread": i, "observed": str(got)[:300], "expected": str(exp), "schedule": fp, "source": src[-700:]},
+                              {"threads": True, "scenario": "threaded-discriminator", "kind": "value" if got[0] != "EXC" else "exc"})
+        rec.nontrivial(("threaded-discriminator", nvar, tagger, fp))
+    finally:
+        fam.dispose()
+
+
 def run_case(seed, tier, rec, st):
     rng = random.Random(seed)
     if rng.random() < 0.06:
         return nofield_history_case(rng, tier, rec, st)
+    if rng.random() < 0.06:
+        return threaded_discriminator_case(rng, tier, rec, st, seed)
     ft = features(rng)
     _FT.clear()
     _FT.update(ft)
